@@ -120,6 +120,34 @@ def posterior(S, n, m, cfg):
         S.prove_ge(sig, Sym.const(1e-4), "learned noise >= constraint lower bound")
 
 
+def replaced_inputs(S, n, m):
+    """predict, replace only the training inputs, predict: the covariance handed out is still a valid (and the right) one"""
+    N = 2 * n + m  # labels: old train, new train, test
+    Gs, Gc = S.factor("g", N)
+    lik = gpytorch.likelihoods.GaussianLikelihood()
+    declare_params(S, lik, "lik_")
+    y = S.randn(n); S.sym_tensor(y, "y")
+    table = torch.zeros(N, N)
+    xs = labels(2 * n, N)
+    with S.mode():
+        Ks = Gs @ Gs.T
+        with torch.no_grad():
+            table.copy_(Gc @ Gc.T)
+        SH.put(table, Ks, check=True)
+        model = StubGP(labels(0, n), y, lik, TableKernel(table), make_mean("zero"))
+        model.eval(); lik.eval()
+        _ = model(xs).variance
+        model.set_train_data(inputs=labels(n, 2 * n))
+        out = model(xs)
+        C = as_sym_arr(SH.get(out.covariance_matrix)).copy()
+        fresh = StubGP(labels(n, 2 * n), y, lik, TableKernel(table), make_mean("zero"))
+        fresh.eval()
+        Cf = as_sym_arr(SH.get(fresh(xs).covariance_matrix)).copy()
+    S.prove_eq(C, Cf, "posterior covariance after replacing the inputs = fresh model on the new inputs")
+    for i in range(m):
+        S.prove_ge(Cf[i, i], Sym.const(0.0), "posterior variance after replacing the inputs >= 0 [%d]" % i)
+
+
 def variational(S, strat, M, n):
     """variational q(f) variances non-negative, covariance symmetric"""
     N = M + n
@@ -201,6 +229,8 @@ def scenarios(tier, seed):
     add("posterior", n=2, m=2, cfg={})
     add("posterior", n=1, m=2, cfg={"fpv": True})
     add("posterior", n=2, m=1, cfg={"detach": False})
+    add("posterior", n=2, m=2, cfg={"fpv": True, "eager": 0})
+    add("replaced_inputs", n=1, m=2)
     add("variational", strat="variational", M=2, n=1)
     add("variational", strat="unwhitened", M=2, n=2)
     add("min_variance", n=3, negative=False)
